@@ -185,6 +185,10 @@ def run(pid: str, tier: str, seed: int) -> int:
     t0 = time.time()
     prop = load_prop(pid)
     ctx = fw.Ctx(pid, tier, seed)
+    try:
+        import chartparse.chart  # noqa: F401  the one cycle-safe first import on an unfixed tree
+    except Exception:  # noqa: BLE001
+        pass
     broken = []  # what no longer checks (theorems / obligations / translation)
     infra = []
     with Lock():
